@@ -373,9 +373,11 @@ class Executor:
 
     @staticmethod
     def _disambiguate(cands, typath):
+        hint = [s for s in re.sub(r'<.*', '', typath).split('::')[:-1] if s]
+        if hint and hint[0] in ('lsm_tree', 'std', 'core', 'alloc', 'dashmap', 'flume', 'byteview', 'xxhash_rust', 'lz4_flex', 'log', 'tempfile'):
+            return []       # a dependency's item that merely shares its name with one of fjall's
         if len(cands) <= 1:
             return cands
-        hint = [s for s in re.sub(r'<.*', '', typath).split('::')[:-1] if s]
         if hint:
             c2 = [f for f in cands if f.name.split('<impl')[0].rstrip(':').split('::')[-len(hint):] == hint]
             if c2:
